@@ -471,6 +471,9 @@ def rule_pass(text, log, cfgset):
             BSTR_DEFS[nm] = t.text
             rec("R13-bytestr-literal", t.start, t.end, nm)
             continue
+        # R2b wildcard closure parameter `|_|` -> `|_w|` (Verus: only variables are supported there)
+        if t.text == "|" and i + 2 < n and toks[i + 1].text == "_" and toks[i + 2].text == "|":
+            rec("R2b-closure-wildcard", toks[i + 1].start, toks[i + 1].end, "_w")
         # R1 endian conversions -> trait shims (pure method rename)
         if t.kind == "id" and t.text in ENDIAN and i + 1 < n and toks[i + 1].text == "(" and i > 0 and toks[i - 1].text in (".", "::"):
             rec("R1-endian-shim", t.start, t.end, ENDIAN[t.text])
@@ -637,7 +640,7 @@ class FnAnatomy:
 CLAUSE_KW = ("extract", "ret", "requires", "ensures", "decreases", "loop", "before", "after", "head",
              "attr", "inherent", "end", "returns", "opens_invariants", "no_unwind", "sigattr", "tail",
              "closure", "hoist", "drop_nested", "param_mut", "as_trait", "implhdr", "strip_body_attr",
-             "cfg", "mirror", "r2", "r3", "variants", "drop_derive", "runtime_assert")
+             "cfg", "mirror", "r2", "r3", "variants", "drop_derive", "runtime_assert", "fields")
 
 
 def parse_block(lines):
@@ -948,6 +951,11 @@ def process_block(repo, clauses, log, items_log, cfgset, variant="main"):
     if it.kind in ("const", "static"):
         text = const_static_lifetime(text, sublog)
     for k, r in clauses:
+        if k == "fields":
+            if it.kind != "struct":
+                raise Lost("%s: `fields` on a non-struct" % where)
+            text = struct_projection(text, [x.strip() for x in r.split(",")], sublog)
+    for k, r in clauses:
         if k == "variants":
             if it.kind != "enum":
                 raise Lost("%s: `variants` on a non-enum" % where)
@@ -979,7 +987,7 @@ def process_block(repo, clauses, log, items_log, cfgset, variant="main"):
         for k, r in clauses[1:]:
             if k == "attr":
                 text = r + "\n" + text
-            elif k in ("end", "inherent", "implhdr", "variants", "r2", "mirror", "drop_derive", "runtime_assert"):
+            elif k in ("end", "inherent", "implhdr", "variants", "r2", "mirror", "drop_derive", "runtime_assert", "fields"):
                 pass
             else:
                 raise Lost("%s: contract clauses on a non-fn item (%s)" % (where, k))
@@ -1060,6 +1068,57 @@ def enum_projection(text, keep, log):
     if found != set(keep):
         raise Lost("enum projection: variants %s not found" % sorted(set(keep) - found))
     log.append({"rule": "R12-enum-projection", "before": "%d variants" % len(parts), "after": "kept %s; dropped %s" % (keep, dropped)})
+    return text[:T[o].end] + "\n    " + ",\n    ".join(kept) + ",\n" + text[T[c].start:]
+
+
+def struct_projection(text, keep, log):
+    """R12 (structs): keep only the listed named fields. A function that reads, writes or constructs
+    a dropped field no longer type-checks (exit 2); the verified functions cannot observe them."""
+    T = tokenize(text)
+    G = match_groups(T)
+    i = 0
+    while T[i].text != "struct":
+        i += 1
+    o = i
+    while T[o].text != "{":
+        o += 1
+    c = G[o]
+    parts, st, j = [], o + 1, o + 1
+    while j <= c:
+        if j < c and T[j].text in ("(", "[", "{"):
+            j = G[j] + 1
+            continue
+        if j < c and T[j].text == "<":
+            # generic args may contain commas
+            depth = 0
+            while True:
+                depth += {"<": 1, ">": -1, ">>": -2}.get(T[j].text, 0)
+                j += 1
+                if depth <= 0:
+                    break
+            continue
+        if j == c or T[j].text == ",":
+            if j > st:
+                parts.append((st, j))
+            st = j + 1
+        j += 1
+    kept, dropped, found = [], [], set()
+    for a, b in parts:
+        k = a
+        while T[k].text == "#":
+            k = G[k + 1] + 1
+        if T[k].text == "pub":
+            k += 1
+            if T[k].text == "(":
+                k = G[k] + 1
+        name = T[k].text
+        if name in keep:
+            kept.append(text[T[a].start:T[b - 1].end]); found.add(name)
+        else:
+            dropped.append(name)
+    if found != set(keep):
+        raise Lost("struct projection: fields %s not found" % sorted(set(keep) - found))
+    log.append({"rule": "R12-struct-projection", "before": "%d fields" % len(parts), "after": "kept %s; dropped %s" % (keep, dropped)})
     return text[:T[o].end] + "\n    " + ",\n    ".join(kept) + ",\n" + text[T[c].start:]
 
 
